@@ -26,36 +26,92 @@ CHECKS = {
          "Outside: BytesMut, memmap2, BorrowedBuf, bumpalo, allocator_api, BufferRef. Known finding F8 (Uninit after a fill) "
          "is reported as KNOWN-FINDING by two dedicated harnesses."),
  "C11": dict(
-    engine="kani",
+    engine="kani + mirsym (Buffer / BufWriter / BufReader layer)",
     technique="bounded model checking of the compiled compio-io helpers (Kani/CBMC): differential against a reference "
-              "written in the harness; chunk sizes, Interrupted/hard faults, positions and payloads are solver-chosen",
+              "written in the harness; chunk sizes, Interrupted/hard faults, positions and payloads are solver-chosen; plus "
+              "symbolic execution of the MIR of buffer.rs, write/buf.rs and read/buf.rs (async fns as coroutine state machines) over "
+              "a ghost Vec<u8> with symbolic length, capacity and content against an adversarial inner stream, one inductive step "
+              "per operation; z3 decides the byte-stream obligations (integers encoded as mod-2^64 mathematical integers)",
     category="proof",
     text="Proof within bounds: read_exact[_at], write_all[_at], append, take, scalar readers/writers, the default "
          "read_vectored/write_vectored, one inductive step of the read_vectored_exact and write_vectored_all loops, and the "
          "in-memory readers/writers/cursors (&[u8], [u8;N], &mut [u8], Cursor<_>, Vec<u8>) transfer exactly the bytes the "
          "reference does for every chunking of a <=6-byte payload, every placement of <=1-2 Interrupted and <=1 hard error, "
          "every position (any u64 where stated) and capacity 4; failures surface as UnexpectedEof/WriteZero/the injected kind; "
-         "no panic/overflow/out-of-bounds is reachable.",
+         "no panic/overflow/out-of-bounds is reachable. Buffered types (bounded model checking over the real MIR, any length / "
+         "capacity / content, <=3/4 inner calls and <=1/2 Pending answers per operation): Buffer::flush_to offers the inner writer "
+         "exactly the unsent bytes in order, Ok only when all were delivered (then reset), a failure keeps exactly the unsent tail; "
+         "BufWriter::{write, write_vectored, flush, shutdown} and BufReader::{fill_buf, read, consume} keep "
+         "delivered ++ buffered = previously buffered ++ bytes reported accepted (resp. handed out ++ unread = previously unread ++ "
+         "newly read), byte for byte; an Err result leaves the caller's bytes unaccepted; the caller's buffer is returned and "
+         "untouched beyond the transferred bytes. copy_with_size (<=6/8 inner calls) delivers to the writer exactly the bytes "
+         "the reader produced, in order, retries Interrupted, and on an error has delivered a prefix; read_to_end / "
+         "read_to_end_at leave in the caller's vector its previous content followed by everything read, for every pre-existing "
+         "length / capacity / content.",
     design_ref="DESIGN.md §1 C11",
-    note="Trusted: Kani, CBMC, cadical; model streams never return Pending. Outside (measured CBMC out-of-memory): the complete "
-         "read_vectored_exact / write_vectored_all loops (their bodies are checked as inductive steps), copy beyond 1 byte, "
-         "split halves, BufReader/BufWriter/Buffer, read_to_end/read_to_string. Four genuine defects found here were repaired "
-         "(known_findings.json: fixed)."),
+    note="Trusted: Kani, CBMC, cadical, z3, the MIR interpreter (mirsym) and its summaries of compio-buf's Slice / IoBuf methods. "
+         "Layer 1 model streams never return Pending. Outside (measured CBMC out-of-memory): the complete read_vectored_exact / "
+         "write_vectored_all loops (their bodies are checked as inductive steps), copy beyond 1 byte, split halves, "
+         "read_to_string's UTF-8 step; layer 2: BufReader::read_vectored, cancellation of a pending operation. Six genuine defects "
+         "found here were repaired (known_findings.json: fixed); the zero-capacity behaviour of BufWriter / BufReader / copy (F23) "
+         "is a recorded known finding."),
+ "C12": dict(
+    engine="mirsym",
+    technique="symbolic execution of the MIR of compat/sync_stream.rs (SyncReadBuf / SyncWriteBuf, async fns as coroutine state "
+              "machines, closures and async blocks bound by span) and of buffer.rs underneath, over a ghost Vec<u8> with symbolic "
+              "length, capacity and content against an adversarial inner stream, one inductive step per operation from every "
+              "well-formed state; and of compat/async_stream.rs + waker_array.rs (poll entry points, pin projections, waker array) "
+              "over an abstract blocking-style half and adversarial in-flight futures, one call from every state; z3 decides the "
+              "byte-stream, limit and would-block obligations",
+    category="model_checking",
+    text="Bounded model checking over the real MIR. Blocking-style adapter: from every well-formed buffer state (any progress <= "
+         "len <= cap, any content, any eof flag, any base_capacity / max_buffer_size) and for every answer pattern of the inner "
+         "stream (<=3/4 inner calls, <=1/2 Pending per operation: short, zero, error, pending), each of read / read_buf_uninit / "
+         "fill_buf / consume / fill_read_buf / into_parts and write / flush_write_buf / has_pending_write keeps the FIFO stream "
+         "equation byte for byte (nothing lost, duplicated or reordered across compaction, growth and partial flushes), a failed "
+         "flush leaves exactly the unsent tail for the retry, WouldBlock is returned exactly when the documented servicing call can "
+         "make progress, end of file is recorded exactly when the stream reports it, the buffered bytes stay within "
+         "max_buffer_size and the limit is reported (WouldBlock / OutOfMemory) rather than turned into data loss; no panic or "
+         "arithmetic overflow is reachable; sequences of calls follow by induction over the stated invariant. Poll-style adapter: "
+         "for one call of each of poll_read / poll_read_uninit / poll_fill_buf / poll_write / poll_flush / poll_close from every "
+         "state (waker-slot occupancy, in-flight future, buffered / unsent / closed flags, caller identity) and every answer of "
+         "the in-flight futures (<=2/3 polls per call): a Pending return has polled the future left in flight with a waker "
+         "covering the caller and every other registered task of that half; at most one boxed future per direction, none dropped "
+         "in flight; shutdown starts only with nothing unsent and no flush in flight; poll_flush / poll_close answer Ok only "
+         "after their future completed.",
+    design_ref="DESIGN.md §1 C12",
+    note="The two layers meet at a stated interface (what the blocking-style half answers), not in one execution. Not covered: what "
+         "happens after a call returned (the wake itself through Arc<WakerArray>: read, not executed), a task that is woken and "
+         "never polls again, cancellation of a pending fill/flush, allocation failure, the read_buf feature. The ghost vector and "
+         "the Vec / compio-buf methods on it are summaries (coverage.summaries). One genuine defect repaired (read limit exceeded, "
+         "/repo 43f3125); the degenerate configurations base_capacity = 0 and max_buffer_size = 0 (F25a/b) are recorded known "
+         "findings."),
  "C13": dict(
-    engine="kani",
+    engine="kani + mirsym (Framed read state machine)",
     technique="bounded model checking of the compiled framers and ancillary codecs (Kani/CBMC): enclose->concatenate->cut at a "
-              "solver-chosen prefix->extract; arbitrary peer bytes as hostile input; push/iterate round trip of control messages",
+              "solver-chosen prefix->extract; arbitrary peer bytes as hostile input; push/iterate round trip of control messages; "
+              "plus symbolic execution of the MIR of <Framed as Stream>::poll_next (framed/read.rs) and buffer.rs over a ghost "
+              "Vec<u8> with an abstract framer / codec and an adversarial inner reader, one call from every state; z3 decides the "
+              "byte-stream and state obligations",
     category="proof",
     text="Proof within bounds: LengthDelimited (one harness per width 1,2,4,8 quick; 3,5,6,7 thorough; either endianness), "
          "CharDelimited<'\\n'>, AnyDelimited(\\r\\n) and NoopFramer: two frames of <=3 symbolic payload bytes are reported "
          "exactly from the prefix containing their last byte, in order, nothing merged/split/dropped; for <=10 arbitrary bytes "
          "extract never panics, a reported frame lies inside the buffer and consuming it makes progress. Ancillary: <=3 messages "
          "round-trip through AncillaryBuf/AncillaryBuilder/AncillaryIter, BufferTooSmall exactly when space is insufficient, "
-         "every slice handed to decode() lies inside the control buffer.",
+         "every slice handed to decode() lies inside the control buffer. Framed read state machine (bounded model checking over "
+         "the real MIR, any buffer state / eof flag, <=3/4 framer calls and <=2/3 reads per call): poll_next never panics, keeps "
+         "its reader and buffer on every return (also after a framer or read error), shows the codec exactly the payload bytes of "
+         "the frame the framer reported, consumes exactly that frame, refills without touching unread bytes and ends the stream "
+         "only after two end-of-file reads in a row. Sink side (poll_ready, start_send, poll_flush from a not-yet-configured or "
+         "idle sink with arbitrary leftover buffer content): the encoder starts from an empty buffer, the framer encloses exactly "
+         "the encoder's output, the writer receives exactly the enclosed frame once and in order (a prefix on error), and the sink "
+         "ends idle, owning its writer and buffer.",
     design_ref="DESIGN.md §1 C13",
-    note="Trusted: Kani, CBMC, cadical, libc's Rust CMSG_* functions as compiled. Buffers are ArrayVec<u8,24> (Vec roots make CBMC "
-         "explore reallocation). Outside: the Framed Stream/Sink state machines (boxed futures + Buffer<B>: CBMC out of memory "
-         "beyond one frame), BytesCodec, serde_json codec, Windows CMSG. Two genuine defects repaired (known_findings.json: fixed)."),
+    note="Trusted: Kani, CBMC, cadical, libc's Rust CMSG_* functions as compiled; z3 and the MIR interpreter with its summaries for "
+         "layer 2 (the framer there is abstract: layer 1 is what ties the concrete framers to that contract). Buffers in layer 1 are "
+         "ArrayVec<u8,24> (Vec roots make CBMC explore reallocation). Outside: the Sink's flush / close semantics, BytesCodec, "
+         "serde_json codec, Windows CMSG. Three genuine defects repaired (known_findings.json: fixed)."),
  "C06": dict(
     engine="kani (+ shim-loom for the cross-thread half) + mirsym (close wrappers)",
     technique="bounded model checking of the compiled SharedFd code (Kani/CBMC); cross-thread half compiled with --cfg loom against "
@@ -263,7 +319,6 @@ CHECKS = {
 }
 
 NOT_APPLICABLE = {
- "C12": "SyncStream/AsyncStream are hard-wired to Buffer<Vec<u8>>; the smallest meaningful Kani harness (one write + one flush) runs CBMC out of memory (16-30 GB); two-operation programs never return a verdict; coroutine MIR is outside the MIR interpreter (DESIGN.md §1 C12)",
  "C15": "behaviour lives in OpenSSL/rustls/tungstenite state machines behind FFI and megabytes of third-party code; no bounded symbolic encoding within reach (DESIGN.md §2)",
  "C16": "quinn-proto + real UDP sockets + timers + worker task; nothing of the property is decidable by symbolic execution of in-repo code (DESIGN.md §2)",
  "C18": "property of OS threads, MPMC channels and whole runtimes; Kani has no threads and a MIR-level model would have to summarise everything the property is about (DESIGN.md §2)",
